@@ -186,6 +186,7 @@ type Disk struct {
 	mu      sync.Mutex // real mutex, never held across a yield
 	Name    string
 	root    *node
+	base    *Disk // initial state if this disk started as a crash image
 	nextIno int
 	byIno   map[int]*node
 	log     []Op
